@@ -28,7 +28,8 @@ PLAN = {
         level="proof",
         verus=["C01_conv_backward.rs", "C01_deconv_backward.rs", "C01_maxpool_backward.rs", "C07_activations.rs", "C16_skip_backward.rs", "C02_dense.rs", "C01_feedback_backward.rs", "C01_backward_glue.rs"],
         kani=True,
-        native_checks=[("network.gradient", "bounded native grid: backward() against exact step-1 difference quotients on 5 architectures mixing dense / convolution / deconvolution and flat<->spatial transitions (integer data, linear activations)")],
+        native_checks=[("network.gradient", "bounded native grid: backward() against exact step-1 difference quotients on 5 architectures mixing dense / convolution / deconvolution and flat<->spatial transitions (integer data, linear activations)"),
+                       ("dense.linear.backward", "bounded native grid: Dense::backward of a linear layer: input gradient W^T g, weight gradient g x^T, bias gradient g iff the layer has a bias, on every rows x cols up to 5 x 5 (non-square included), integer data (exact)")],
         undecided_clauses=[
             "Dense::backward is proved to be the delta rule over abstract tensor operations (unit dense.backward: delta = f'(out) (.) g * scale, ones for soft-max; "
             "W^T delta; delta (x) input; bias gradient = delta), the operations themselves are C15's; numerically it is a bounded Kani harness (2->2 / 1->2, small-integer data)",
@@ -41,9 +42,10 @@ PLAN = {
         level="proof",
         verus=["C02_convolve.rs", "C02_deconv_forward.rs", "C02_maxpool_forward.rs", "C02_pad3d.rs", "C17_network_forward.rs", "C02_dense.rs", "C02_forward_glue.rs", "C02_flat_view.rs"],
         kani=True,
+        native_checks=[("dense.linear.forward", "bounded native grid: Dense::forward of a linear layer = W x + b on every rows x cols up to 5 x 5 (non-square included), with and without bias, integer data (exact)")],
         undecided_clauses=["max-pool: inputs are required to be above f32::MIN (the scan's start value); an element equal to f32::MIN in a 1x1 window would "
                            "record index (0,0)",
-                           "dense W x + b is a bounded Kani harness (2->2); a network's prediction = composition of its layers is proved at the level of abstract layer functions (units network._forward and network.forward: fold over the layers, with skip / loop handling)",
+                           "dense W x + b: the composition is proved over abstract operations (unit dense.forward), dot itself for every size (unit tensor.dot, C15); numerically a bounded Kani harness (2->2) and the native grid dense.linear.forward (up to 5x5, non-square); a network's prediction = composition of its layers is proved at the level of abstract layer functions (units network._forward and network.forward: fold over the layers, with skip / loop handling)",
                            "the glue of the four forward functions is proved at the level of abstract operations (units dense.forward, conv/deconv/maxpool.forward.glue: W x + b then "
                            "activation; padding extents and kernel order; dropout only when training; flatten only when flagged); that the kernels' preconditions (rectangular "
                            "operands, sizes in range) hold where they are called is read (Convolution::create validates them); the flat-input view of the three spatial layers is proved for every size "
@@ -78,7 +80,7 @@ PLAN = {
                                         "the builder accepts (non-empty outputs): the forward and backward passes run, every layer produces the shape it announced (flattened before a dense layer), "
                                         "every weight / kernel gradient has its parameter's shape")],
         undecided_clauses=["builder chaining is proved one step at a time (units network.convolution / deconvolution / maxpool: the new layer is created from the shape the previous layer announces; "
-                           "network.dense.after: flattened count and flatten flag) and exercised end to end by the bounded native grid shapes.chain; Network::dense's first-layer arm and Dense::create are read",
+                           "network.dense.after: flattened count and flatten flag) and exercised end to end by the bounded native grid shapes.chain; Network::dense is proved as a whole (unit network.dense: first-layer arm, the region above by its contract, the push) against the contract that Dense::create records the two shapes it is given (read)",
                            "flat sizes >= 2^24 (the cast to f32 is no longer exact there)"],
     ),
     "C03": dict(
@@ -128,7 +130,7 @@ PLAN = {
     "C10": dict(
         title="Feedback blocks keep their repeated layers weight-tied",
         level="proof",
-        verus=["C10_feedback.rs", "C10_unroll.rs", "C03_network_update.rs"],
+        verus=["C10_feedback.rs", "C10_unroll.rs", "C10_parameters.rs", "C03_network_update.rs"],
         kani=True,
         native_checks=[("feedback.tied", "bounded native grid: repetitions bit-identical at creation and after training, parameters() counts once; 192 block networks")],
         undecided_clauses=[
@@ -136,7 +138,7 @@ PLAN = {
             "the per-copy optimizer steps of Feedback::update are proved per layer (unit feedback.update.dispatch); the accumulation arms (add/subtract/multiply/mean over the "
             "members) are NOT verified; the claim is that whatever they produce, the final loop overwrites every member of every couple with ONE value and the couples "
             "cover every unrolled layer",
-            "parameters() counting each shared parameter once: read, not verified"],
+            "parameters() counting each shared parameter once: proved for Feedback::parameters (unit feedback.parameters: the sum of the layers' own counts over the first coupled.len() layers = one representative per group of tied repetitions, by the coupling table of unit feedback.coupled); the per-layer counts (Dense / Convolution::parameters) and Network::parameters' sum over the layers are read"],
     ),
     "C11": dict(
         title="A feedback block computes the repeated, optionally skip-combined, layer sequence",
@@ -191,7 +193,8 @@ PLAN = {
         level="proof",
         verus=["C15_tensor_ops.rs", "C15_transpose.rs", "C15_mean_pick.rs", "C15_dot_product.rs", "C15_clamp_whole.rs", "C15_inplace_whole.rs"],
         kani=True,
-        native_checks=[("tensor.elementwise", "bounded native grid: add / sub / mul / scaled Hadamard / div-by-scalar in place, clamp and the mean over 3 tensors on operands of ranks 1-D..4-D with every extent tuple up to 3 (non-square included): shape field and nesting unchanged, every cell = the operator on the operand cells at the same nested index (bit-exact); operands of different shapes refused")],
+        native_checks=[("tensor.elementwise", "bounded native grid: add / sub / mul / scaled Hadamard / div-by-scalar in place, clamp and the mean over 3 tensors on operands of ranks 1-D..4-D with every extent tuple up to 3 (non-square included): shape field and nesting unchanged, every cell = the operator on the operand cells at the same nested index (bit-exact); operands of different shapes refused"),
+                       ("tensor.linear", "bounded native grid: dot, outer product and transpose on every rows x cols up to 5 x 5 (non-square included), integer data (exact): each against its index definition, shapes included")],
         undecided_clauses=["add / sub / mul / scaled Hadamard / div-by-scalar in place and clamp are proved as WHOLE functions for every size of ranks 1-D..4-D (units tensor.*.whole, tensor.clamp; R57-R59), "
                            "dot and the outer product too (units tensor.dot, tensor.product; R22, R31, R50); the mean over k tensors stays at closure units + bounded harnesses",
                            "nested-list add / div (recursion over Tensor): those arms are skipped in the whole-function units (logged); bounded harnesses only",
@@ -229,9 +232,9 @@ PLAN = {
     "C18": dict(
         title="The random generator stays in range and shuffling is a safe permutation",
         level="proof",
-        verus=["C18_shuffle.rs"],
+        verus=["C18_shuffle.rs", "C18_tensor_random.rs"],
         kani=True,
-        undecided_clauses=["Tensor::random for shapes above 2 entries (bounded; the element contract of generate is unbounded)",
+        undecided_clauses=["Tensor::random is proved as a whole function for every requested shape of ranks 1-D..4-D (unit tensor.random, R60) against the contracts of create / generate that Kani proves on the real bodies for all states; the bounded Kani harnesses (2 entries) stay as a cross-check that executes the real iterator chain",
                            "shuffle is proved for every length and every generated number (Verus, unit random.shuffle) under std's specification of `swap`; uniformity of the permutation is not a property here",
                            "the generate contract inside shuffle's Verus unit is `any f32` (nothing about generate is needed); the float->usize cast is opaque (any value)"],
     ),
@@ -468,15 +471,17 @@ MANIFEST_TEXT = {
     ),
     "C18": dict(
         category="proof",
-        technique="Kani function contract on Generator::generate (proof_for_contract, all states), stub_verified reuse in shuffle; Verus contract on the whole shuffle (all lengths)",
+        technique="Kani function contract on Generator::generate (proof_for_contract, all states), stub_verified reuse in shuffle; Verus contracts on the whole shuffle (all lengths) and the whole Tensor::random (all shapes of ranks 1-D..4-D)",
         design_ref="DESIGN.md §5 C18",
         text="Complete over the state space: a Kani function contract on the real Generator::generate is proved for all 2^31-1 states "
              "and all finite min<=max (result in [min,max], state stays valid, coefficients unchanged, no overflow), create() for all 2^64 "
              "seeds; shuffle is checked modularly against that verified contract (every value the contract allows) and non-modularly, "
              "for lengths up to the stated bound (bounded, labelled as such). Verus proves the whole shuffle (rewrites R28/R45/R46) for every length and every value "
-             "generate may return: no index leaves the vector, the length is kept and the result has the same multiset of elements as the argument.",
-        note="CBMC's bit-precise float model; Kani's shuffle harnesses bounded in length (the Verus unit is not); Tensor::random on 2-entry shapes of every rank, modular on generate's "
-             "contract, clock replaced by a symbolic sub-second value.",
+             "generate may return: no index leaves the vector, the length is kept and the result has the same multiset of elements as the argument. Verus also proves the whole Tensor::random (unit tensor.random, R60) for every "
+             "requested shape of ranks 1-D to 4-D: the requested shape is recorded, the data have the requested extent at every nesting level, and every entry is a value generate returned "
+             "for (min, max) - in [min, max] by generate's Kani-proved contract.",
+        note="CBMC's bit-precise float model; Kani's shuffle harnesses bounded in length (the Verus unit is not); Tensor::random: the Verus unit uses the contracts of create / generate as "
+             "Kani proves them (modular), the clock-seeded construction is replaced by 'some seed' (//@assume-region); the Kani harnesses on 2-entry shapes execute the real iterator chain.",
     ),
 }
 
